@@ -215,7 +215,7 @@ Proof.
   destruct (resolve (sy_pend yc) yc) as [[yr ps] er] eqn:Er. injection H as <- <-.
   assert (Hw2 : forall q w, sview y = Some (q, w, false) -> w <> 2).
   { intros q w Hsv. destruct Hpd as (_ & Hs & _). destruct (Hs _ _ Hsv) as (_ & -> & _). lia. }
-  destruct (step_core_effect s sid _ _ _ _ _ Ec Hwf Hfresh Hw2) as (y1 & pend & acts & Hpop & Hv & He & Hr & Hpr & Harr).
+  destruct (step_core_effect s sid _ _ _ _ _ Ec Hwf Hfresh Hw2) as (y1 & pend & acts & Hpop & Hv & He & Hr & Hpr & Harr & Hlab).
   rewrite Hdr in Hv.
   destruct (resolve_effect s sid _ _ _ _ _ Er) as (acts2 & Hv2 & He2 & Ha2 & Hr2 & Hf2 & Hd2).
   assert (HE : ev_frames (ec ++ er) = emitted acts ++ emitted acts2).
